@@ -103,7 +103,7 @@ fn load_findings() -> Vec<Finding> {
             what: f["what"].as_str().unwrap_or("").to_string(),
         };
         // a wildcard needs a covers entry: either a list of values or the string "any"
-        for seg in finding.key.split('/') {
+        for seg in finding.key.split('/').filter(|_| finding.status == "known") {
             if let Some((dim, val)) = seg.split_once('=') {
                 if val == "*" && !finding.covers.contains_key(dim) {
                     machinery_fail(&format!(
